@@ -21,7 +21,8 @@ LEVEL = "fault_enumeration"
 TECHNIQUE = (
     "Hypothesis-generated directory histories: 1-3 earlier assign_confidence runs (own data, chunk size, prefix, "
     "format), each completed or killed at an enumerated write / append / unlink call (before or after the call), then "
-    "the observed run; plus CLI histories with an interrupted or foreign <pin>.tsv. Oracle = differential against the "
+    "the observed run (optionally with protein level); CLI histories with an interrupted or foreign <pin>.tsv; histories of the "
+    "stand-alone rollup tool (roll up, change the input set, roll up again in the same directory). Oracle = differential against the "
     "same run in a clean directory, directory listing, and a reference PIN conversion"
 )
 RULE = (
@@ -111,7 +112,8 @@ def _run_spec(draw, observed=False):
         n = draw(st.integers(6, 60))
     return {"seed": draw(st.integers(0, 2**31 - 1)), "n": n, "chunk": chunk,
             "prefix": draw(st.sampled_from([None, None, "a", "b"])), "fmt": draw(st.sampled_from(["tsv", "tsv", "parquet"])),
-            "dedup": draw(st.booleans()), "rollup": draw(st.sampled_from([True, True, False]))}
+            "dedup": draw(st.booleans()), "rollup": draw(st.sampled_from([True, True, False])),
+            "proteins": draw(st.sampled_from([False, False, True]))}
 
 
 @st.composite
@@ -120,6 +122,11 @@ def _case(draw, tier):
         return {"kind": "cli", "seed": draw(st.integers(0, 2**31 - 1)), "n_spectra": draw(st.integers(120, 200)),
                 "leftover": draw(st.sampled_from(["crash", "crash", "foreign-valid", "foreign-garbage", "older-version"])),
                 "j": draw(st.integers(0, 400))}
+    if draw(st.integers(0, 6)) == 0:
+        return {"kind": "rollup", "seed": draw(st.integers(0, 2**31 - 1)), "first": draw(st.lists(st.sampled_from(["a", "b", "c", "d"]), min_size=1, max_size=3, unique=True)),
+                "second": draw(st.lists(st.sampled_from(["a", "b", "c", "d", "e"]), min_size=1, max_size=3, unique=True)),
+                "level": draw(st.sampled_from(["peptide", "peptide", "psm"])), "crash": draw(st.sampled_from([None, None, draw(st.integers(0, 30))])),
+                "regen": draw(st.booleans())}
     nearlier = draw(st.sampled_from([1, 1, 2, 3]))
     earlier = [draw(_run_spec()) for _ in range(nearlier)]
     obs = draw(_run_spec(observed=True))
@@ -147,22 +154,37 @@ def _dataset(spec, tmp, tag):
     datagen.write_table(df, path)
     rng = np.random.default_rng(spec["seed"] + 1)
     scores = np.round(rng.normal(0, 1, len(df)) + np.where(meta["is_target"], 1.0, 0.0), 5) + np.arange(len(df)) * 1e-7
-    return datagen.build_ondisk(path, df, meta), scores
+    ds = datagen.build_ondisk(path, df, meta)
+    ds._verif_peptides = (df["Peptide"].tolist(), meta["is_target"].tolist())
+    return ds, scores
+
+
+def _proteins_for(ds):
+    from mokapot.proteins import Proteins
+
+    peps, tg = ds._verif_peptides
+    pmap, order = {}, {}
+    for p, t in zip(peps, tg):
+        k = order.setdefault(p, len(order)) % 12
+        pmap[p] = f"G{k}" if t else f"decoy_G{k}"
+    return Proteins(decoy_prefix="decoy_", peptide_map=pmap, shared_peptides={}, protein_map={f"G{k}": f"decoy_G{k}" for k in range(12)},
+                    has_decoys=True)
 
 
 def _assign(spec, ds, scores, dest):
     import mokapot
 
     config_inject.install_pep_stub()
+    prot = _proteins_for(ds) if (spec.get("proteins") and spec["rollup"]) else None
     with config_inject.chunk_sizes(confidence=spec["chunk"]):
         mokapot.assign_confidence([ds], max_workers=1, scores=[scores.copy()], descs=[True], eval_fdr=0.1, dest_dir=Path(dest),
                                   prefixes=[spec["prefix"]], decoys=True, deduplication=spec["dedup"], do_rollup=spec["rollup"],
-                                  peps_algorithm="verif_stub")
+                                  proteins=prot, peps_algorithm="verif_stub")
 
 
 def _expected_files(spec):
     pre = f"{spec['prefix']}." if spec["prefix"] else ""
-    levels = ["psms"] + (["peptides"] if spec["rollup"] else [])
+    levels = ["psms"] + (["peptides"] if spec["rollup"] else []) + (["proteins"] if (spec.get("proteins") and spec["rollup"]) else [])
     return {f"{pre}{td}.{lv}" for lv in levels for td in ("targets", "decoys")}
 
 
@@ -172,6 +194,8 @@ def _intermediates(spec, nrows):
     nchunks = -(-nrows // spec["chunk"])
     out = {f"{pre}scores_metadata_{i}{ext}" for i in range(nchunks)}
     out |= {f"psms{ext}"} | ({f"peptides{ext}"} if spec["rollup"] else set())
+    if spec.get("proteins") and spec["rollup"]:
+        out |= {f"proteins{ext}"}
     return out
 
 
@@ -382,7 +406,87 @@ def _check_cli(case):
     return {"nontrivial": had_left, "classes": ["cli", "leftover-" + kind], "counters": {"cli_histories": 1}}
 
 
+def _make_level_files(tmp, name, seed, n):
+    """result files <name>.targets.{psms,peptides} / decoys.* produced by a real assign_confidence run"""
+    spec = {"seed": seed, "n": n, "chunk": 1000, "prefix": name, "fmt": "tsv", "dedup": True, "rollup": True, "proteins": False}
+    d = tmp / f"gen_{name}_{seed}"
+    d.mkdir()
+    ds, sc = _dataset(spec, d, f"{name}{seed % 97}_")
+    out = d / "out"
+    out.mkdir()
+    _assign(spec, ds, sc, out)
+    return out
+
+
+def _run_rollup(src, level):
+    from mokapot import brew_rollup
+    import mokapot.peps as mpeps
+
+    config_inject.install_pep_stub()
+    saved = mpeps.PEP_ALGORITHM["qvality"]
+    mpeps.PEP_ALGORITHM["qvality"] = mpeps.PEP_ALGORITHM["verif_stub"]
+    try:
+        brew_rollup.main(["--level", level, "--src_dir", str(src), "--dest_dir", str(src), "--verbosity", "0"])
+    finally:
+        mpeps.PEP_ALGORITHM["qvality"] = saved
+
+
+def _check_rollup(case):
+    """History for the stand-alone rollup tool: roll up, change the set of input files, roll up again in the same
+    directory; the second result must equal the result of the same rollup in a directory that never saw the first."""
+    level = case["level"]
+    with scratch_dir() as tmp:
+        def populate(d, names, gen):
+            for nm in names:
+                src = _make_level_files(tmp, nm, case["seed"] + (17 * gen if case["regen"] else 0) + ord(nm), 30 + 7 * (ord(nm) % 5))
+                for f in src.iterdir():
+                    if f.name.endswith(f".{level}s"):
+                        shutil.copy(f, d / f.name)
+                shutil.rmtree(src.parent, ignore_errors=True)
+        hist = tmp / "hist"
+        hist.mkdir()
+        populate(hist, case["first"], 0)
+        with FaultInjector(at=case["crash"], after=False):
+            try:
+                _run_rollup(hist, level)
+            except InjectedCrash:
+                pass
+            except BaseException as e:  # noqa: BLE001
+                raise Rejected(f"first rollup fails by itself: {type(e).__name__}: {str(e)[:60]}") from None
+        # the user changes the inputs: result files of experiments not in the second set are withdrawn
+        for f in list(hist.iterdir()):
+            if not f.name.startswith("rollup.") and f.name.split(".")[0] not in case["second"]:
+                f.unlink()
+        for f in list(hist.iterdir()):
+            if not f.name.startswith("rollup."):
+                f.unlink()
+        populate(hist, case["second"], 1)
+        clean = tmp / "clean"
+        clean.mkdir()
+        populate(clean, case["second"], 1)
+        try:
+            guarded(_run_rollup, clean, level, sig="rollup-clean")
+        except Violation as v:
+            raise Rejected("rollup fails on the clean directory: " + v.message[:80]) from None
+        debris = sorted(f.name for f in hist.iterdir() if f.name.startswith("rollup."))
+        where = f"first rollup over {case['first']} ({'killed at call ' + str(case['crash']) if case['crash'] is not None else 'completed'}), second over {case['second']}; leftovers {debris}"
+        try:
+            _run_rollup(hist, level)
+        except BaseException as ex:  # noqa: BLE001
+            raise Violation("rollup-fails-on-leftover", f"{type(ex).__name__}: {str(ex)[:150]}; {where}") from None
+        outs = [f.name for f in clean.iterdir() if f.name.startswith("rollup.targets.") or f.name.startswith("rollup.decoys.")]
+        require(outs, "harness-rollup", "no rollup output")
+        for f in outs:
+            require((hist / f).exists(), "rollup-result-missing", f"{f}; {where}")
+            require((hist / f).read_bytes() == (clean / f).read_bytes(), "rollup-result-altered",
+                    f"{f} differs from the same rollup in a clean directory ({len((hist / f).read_bytes())} vs {len((clean / f).read_bytes())} bytes); {where}")
+    return {"nontrivial": bool(debris) and set(case["first"]) != set(case["second"]), "classes": ["rollup-history", "level-" + level],
+            "counters": {"rollup_histories": 1}}
+
+
 def check(case):
     if case["kind"] == "cli":
         return _check_cli(case)
+    if case["kind"] == "rollup":
+        return _check_rollup(case)
     return _check_api(case)
